@@ -23,6 +23,8 @@ enum Op {
     /// (num_values, log2 domain size, nonce)
     Ints(usize, u32, u64),
     Pow(u64),
+    /// n consecutive base-field draws on the same seed (long runs: the PRNG counter passes 1000)
+    Burst(usize),
 }
 
 fn alphabet(cubic: bool, thorough: bool) -> Vec<Op> {
@@ -149,6 +151,20 @@ where
                 Err(e) => Out::Err(format!("{e:?}").split('(').next().unwrap_or("").to_string()),
             },
             Op::Pow(n) => Out::Zeros(coin.check_leading_zeros(n)),
+            Op::Burst(n) => {
+                let mut all = vec![];
+                let mut err = None;
+                for _ in 0..n {
+                    match elem_out::<B, B>(coin.draw()) {
+                        Out::Elem(v) => all.extend(v),
+                        o => {
+                            err = Some(o);
+                            break;
+                        },
+                    }
+                }
+                err.unwrap_or(Out::Elem(all))
+            },
         })
         .collect()
 }
@@ -167,6 +183,20 @@ fn run_ref<B: Base, H: ElementHasher<BaseField = B>>(seed: &[B], h: &[Op]) -> Ve
             Op::DrawCube => coin.draw(3),
             Op::Ints(k, lg, nonce) => coin.ints(k, lg, nonce),
             Op::Pow(n) => coin.zeros(n),
+            Op::Burst(n) => {
+                let mut all = vec![];
+                let mut err = None;
+                for _ in 0..n {
+                    match coin.draw(1) {
+                        Out::Elem(v) => all.extend(v),
+                        o => {
+                            err = Some(o);
+                            break;
+                        },
+                    }
+                }
+                err.unwrap_or(Out::Elem(all))
+            },
         })
         .collect()
 }
@@ -274,6 +304,7 @@ fn variant_name(o: &Op) -> &'static str {
         Op::DrawCube => "draw_cube",
         Op::Ints(..) => "draw_integers",
         Op::Pow(_) => "check_leading_zeros",
+        Op::Burst(_) => "draw_base_burst",
     }
 }
 
@@ -325,6 +356,49 @@ where
     );
 }
 
+/// Long runs on one seed: every history of length <= 2 that contains a burst of 1100 base draws, a
+/// draw_integers(990) followed by 20 draws, and 120 cubic draws (f62: dozens of PRNG calls each).
+/// The per-draw retry budget of the documentation (1000 attempts per draw) never runs out here.
+fn long_runs<B, H>(name: &str, cubic: bool, seeds_used: usize, report: &mut Report, st_total: &mut (u64, u64, u64))
+where
+    B: Base + ExtensibleField<2> + ExtensibleField<3>,
+    H: ElementHasher<BaseField = B>,
+{
+    let alpha = alphabet(cubic, false);
+    let mut hs: Vec<Vec<Op>> = vec![vec![Op::Burst(1100)], vec![Op::Burst(1100), Op::Burst(1100)]];
+    for o in &alpha {
+        hs.push(vec![*o, Op::Burst(1100)]);
+        hs.push(vec![Op::Burst(1100), *o]);
+    }
+    let mut h = vec![Op::Ints(990, 10, 0)];
+    h.extend(vec![Op::DrawBase; 20]);
+    hs.push(h);
+    if cubic {
+        hs.push(vec![Op::DrawCube; 120]);
+    }
+    hs.push(vec![Op::DrawQuad; 600]);
+    let jobs: Vec<(usize, usize)> = (0..seeds_used).flat_map(|si| (0..hs.len()).map(move |i| (si, i))).collect();
+    let outs = mck::par_map(jobs.len(), |k| {
+        let (si, i) = jobs[k];
+        let mut s = Sweep::new();
+        let mut st = Stats { histories: 0, transitions: 0, draws_checked: 0, twin_pairs: 0, distinct_outputs: Default::default() };
+        check_history::<B, H>(name, si, &hs[i], &mut s, &mut st);
+        (s, st)
+    });
+    let mut s = Sweep::new();
+    let (mut hist, mut trans) = (0, 0);
+    for (o, st) in outs {
+        s.absorb(o);
+        hist += st.histories;
+        trans += st.transitions;
+    }
+    st_total.0 += hist;
+    st_total.1 += trans;
+    st_total.2 += hist;
+    s.into_report(&format!("{name}: long runs on one seed (PRNG counter beyond 1000)"), json!({"histories": hist, "seeds": seeds_used,
+        "shapes": ["Burst(1100)", "Burst(1100) x 2", "op, Burst(1100) and Burst(1100), op for every op of the alphabet", "Ints(990, 2^10) then 20 draws", "120 cubic draws", "600 quadratic draws"]}), report);
+}
+
 fn rec<B, H>(name: &str, si: usize, alpha: &[Op], h: &mut Vec<Op>, depth: usize, s: &mut Sweep, st: &mut Stats)
 where
     B: Base + ExtensibleField<2> + ExtensibleField<3>,
@@ -356,6 +430,8 @@ fn parse_op(t: &str) -> Option<Op> {
         Some(Op::Ints(n[0] as usize, n[1] as u32, n[2]))
     } else if t.starts_with("Pow") {
         Some(Op::Pow(nums(t)[0]))
+    } else if t.starts_with("Burst") {
+        Some(Op::Burst(nums(t)[0] as usize))
     } else {
         None
     }
@@ -432,6 +508,13 @@ pub fn run(args: &Args) {
     explore::<B64, Rp64_256>("Rp64_256", true, d_slow, thorough, &mut report, &mut tot);
     explore::<B64, RpJive64_256>("RpJive64_256", true, d_slow, thorough, &mut report, &mut tot);
     explore::<B62, Rp62_248>("Rp62_248", true, d_slow, thorough, &mut report, &mut tot);
+    long_runs::<B64, Blake3_256<B64>>("Blake3_256<f64>", true, 3, &mut report, &mut tot);
+    long_runs::<B64, Blake3_192<B64>>("Blake3_192<f64>", true, 3, &mut report, &mut tot);
+    long_runs::<B128, Sha3_256<B128>>("Sha3_256<f128>", false, 3, &mut report, &mut tot);
+    long_runs::<B62, Blake3_256<B62>>("Blake3_256<f62>", true, 3, &mut report, &mut tot);
+    long_runs::<B64, Rp64_256>("Rp64_256", true, 1, &mut report, &mut tot);
+    long_runs::<B64, RpJive64_256>("RpJive64_256", true, 1, &mut report, &mut tot);
+    long_runs::<B62, Rp62_248>("Rp62_248", true, 1, &mut report, &mut tot);
     report.states = Some(tot.0);
     report.transitions = Some(tot.1);
     report.traces_validated = Some(tot.2);
